@@ -266,7 +266,7 @@ func drive(t *testing.T, mk keeperMaker, nSeq, nConc int) *collector {
 	seen := map[string]bool{}
 	for i := 0; i < nSeq; i++ {
 		rng := ev.NewRand(1, "C26", "seq", i)
-		runSeqCase(col, rng, genWorld(rng, i%2 == 1, false), st, mk, seen)
+		runSeqCase(col, rng, genWorld(rng, rng.Bool(), false), st, mk, seen)
 	}
 	for i := 0; i < nSeq/10; i++ {
 		rng := ev.NewRand(1, "C26", "seq-huge", i)
@@ -274,7 +274,7 @@ func drive(t *testing.T, mk keeperMaker, nSeq, nConc int) *collector {
 	}
 	for i := 0; i < nConc; i++ {
 		rng := ev.NewRand(1, "C26", "conc", i)
-		w := genWorld(rng, i%2 == 1, false)
+		w := genWorld(rng, rng.Bool(), false)
 		out := runConcCase(col, rng, w, st, mk, concGoroutines, concOpsEach, checkerTimeout)
 		for _, v := range out.direct {
 			col.Violation(v.key, v.what, v.detail)
